@@ -5,7 +5,7 @@
    position of a byte offset; [located src t] = text at [pos,pos+len), line and character
    column of pos; [split_comments] = veryl_token.rs split_comment_token with COMMENT_REGEX as
    a scanner; [end_line]/[end_column] = Token::end_line/end_column). *)
-From VV Require Import Pos.PosModel Pos.PosProofs.
+From VV Require Import Pos.PosModel Pos.PosProofs Pos.LexPosModel Pos.LexPosProofs.
 
 (* Every comment token cut out of a comment run is located in the source, provided the run
    token (whose position comes from the lexer) is: text at [pos, pos+len), line, character
@@ -33,6 +33,21 @@ Theorem C12_end_position_correct :
   let e := N.to_nat (t_pos t) + N.to_nat (t_len t) in
   end_line t = N.of_nat (line_of src e) /\ (end_column t + 1)%N = N.of_nat (col_of src e).
 Proof. exact end_position_correct. Qed.
+
+(* The lexer's rule for ordinary tokens (scnr2 CharIterWithPosition::next, third party): when
+   the iterator only advances, the i-th character gets line = 1 + newlines before it and
+   column = 1 + characters since the last newline — for every text. *)
+Theorem C12_lexer_positions_correct :
+  forall cs, lexer_positions cs = map (cpos cs) (seq 0 (length cs)).
+Proof. exact lexer_positions_correct. Qed.
+
+(* KNOWN FINDING (KNOWN_FINDINGS.txt lexer-slash-after-comment-newline): restore_state does not
+   restore last_char, so after the scanner looked ahead over a character and went back, a
+   character that follows a newline gets a wrong position ("c\n/1", state saved before '/'). *)
+Theorem C12_restore_position_refuted :
+  exists cs i, forall it, it = ci_restore (take 1 (ci_save (take i (ci_new cs)))) ->
+    exists p it', ci_next it = Some (p, it') /\ p <> cpos cs i.
+Proof. exact restore_position_refuted. Qed.
 
 (* What the code computed before the repair (fixed: see KNOWN_FINDINGS.txt): the old
    arithmetic is refuted on "/* é */ /* b */\n". *)
@@ -66,5 +81,7 @@ Print Assumptions C12_split_located.
 Print Assumptions C12_split_ordered.
 Print Assumptions C12_split_texts_are_comments.
 Print Assumptions C12_end_position_correct.
+Print Assumptions C12_lexer_positions_correct.
+Print Assumptions C12_restore_position_refuted.
 Print Assumptions C12_old_split_pos_refuted.
 Print Assumptions C12_old_split_column_utf8_refuted.
